@@ -5,7 +5,7 @@ use crate::engine::{block_on, drain_blocking, Check, Outcome, Scratch, Tier};
 use crate::keys;
 use crate::prng::Rng;
 use crate::publisher::*;
-use crate::transport::{Base, Resp, SimTransport};
+use crate::transport::{Base, Event, Resp, SimTransport, Step};
 use crate::world::{self, RepoSpec, RoleNode};
 use futures::StreamExt;
 use serde::{Deserialize, Serialize};
@@ -40,6 +40,10 @@ pub struct Sc {
     pub root_chain: bool,
     /// index into `targets` whose source bytes are corrupted
     pub corrupt: Option<usize>,
+    /// before the judged clone, a first `cache()` into other directories is abandoned (its future
+    /// dropped) while this target (index modulo the number of targets) is half transferred
+    #[serde(default)]
+    pub abandon: Option<usize>,
 }
 
 pub struct C19;
@@ -117,7 +121,7 @@ impl Check for C19 {
         "C19"
     }
     fn rule(&self) -> String {
-        "foreign-publisher repositories with 1..3 root versions (online keys optionally rotated per version), 0..2 delegated roles with odd names, 0..6 targets with odd names (sub-directories, spaces, non-ASCII, names needing resolution, names that look like metadata files) in any role, both consistent-snapshot settings; cache() with all targets or a subset (optionally naming an unlisted target), with/without root chain, optionally one source target corrupted; then reload from the two directories with the real FilesystemTransport; non-trivial = the cache held at least one target or a root chain, or a corrupted source was fetched; distinct = distinct canonical trace".into()
+        "foreign-publisher repositories with 1..3 root versions (online keys optionally rotated per version), 0..2 delegated roles with odd names, 0..6 targets with odd names (sub-directories, spaces, non-ASCII, names needing resolution, names that look like metadata files) in any role, both consistent-snapshot settings; cache() with all targets or a subset (optionally naming an unlisted target), with/without root chain, optionally one source target corrupted; in a quarter of the runs a first cache() into other directories is abandoned (future dropped) while one target is half transferred; then reload from the two directories with the real FilesystemTransport; non-trivial = the cache held at least one target or a root chain, or a corrupted source was fetched; distinct = distinct canonical trace".into()
     }
     fn assumptions(&self) -> Vec<String> {
         vec![
@@ -135,7 +139,7 @@ impl Check for C19 {
         }
     }
     fn required_faults(&self, _t: Tier) -> Vec<&'static str> {
-        vec!["corrupted_source_target", "unlisted_target_requested", "odd_role_name", "odd_target_name"]
+        vec!["corrupted_source_target", "unlisted_target_requested", "odd_role_name", "odd_target_name", "clone_abandoned_mid_target"]
     }
     fn required_probes(&self, _t: Tier) -> Vec<&'static str> {
         vec!["clone_reloaded_with_identical_versions", "targets_read_back_identical", "root_chain_complete", "corrupted_target_not_stored"]
@@ -185,12 +189,16 @@ impl Check for C19 {
             subset,
             root_chain: r.chance(1, 2),
             corrupt,
+            abandon: if r.chance(1, 4) { Some(r.usize_below(8)) } else { None },
         }
     }
     fn shrink(&self, sc: &Sc) -> Vec<Sc> {
         let mut v = Vec::new();
         if sc.corrupt.is_some() {
             v.push(Sc { corrupt: None, ..sc.clone() });
+        }
+        if sc.abandon.is_some() {
+            v.push(Sc { abandon: None, ..sc.clone() });
         }
         if sc.consistent {
             v.push(Sc { consistent: false, ..sc.clone() });
@@ -288,21 +296,45 @@ impl Check for C19 {
             tfiles.insert(world::target_file_name(sc.consistent, &resolve(n), c), served);
         }
         let corrupt_rel = corrupt_name.as_ref().map(|n| world::target_file_name(sc.consistent, &resolve(n), &contents[n]));
-        let transport = SimTransport::new(move |r| match r.base {
-            Base::Metadata => meta.get(&r.rel).map_or(Resp::not_found(), |b| Resp::whole(b)),
-            Base::Targets => {
-                // names needing resolution are requested under their resolved name
-                match tfiles.get(&r.rel).or_else(|| tfiles.get(&crate::transport::pct_decode(&r.rel))) {
-                    Some(b) => Resp::whole(b),
-                    None => Resp::not_found(),
-                }
-            }
-            Base::Unknown => Resp::not_found(),
+        // the target during whose transfer a first cache() is abandoned: served in two halves with
+        // a "not ready" in between, which is where the caller walks away
+        let abandon_rel: Option<String> = sc.abandon.filter(|_| !sc.targets.is_empty()).map(|i| {
+            let n = &sc.targets[i % sc.targets.len()].name;
+            world::target_file_name(sc.consistent, &resolve(n), &contents[n])
         });
+        let armed = std::sync::Arc::new(std::sync::atomic::AtomicBool::new(false));
+        let walk_away = std::sync::Arc::new(tokio::sync::Notify::new());
+        let (abandon_rel2, abandon_rel3, armed2, walk2) = (abandon_rel.clone(), abandon_rel.clone(), armed.clone(), walk_away.clone());
+        let transport = SimTransport::with_hook(
+            move |r| match r.base {
+                Base::Metadata => meta.get(&r.rel).map_or(Resp::not_found(), |b| Resp::whole(b)),
+                Base::Targets => {
+                    // names needing resolution are requested under their resolved name
+                    let rel = if tfiles.contains_key(&r.rel) { r.rel.clone() } else { crate::transport::pct_decode(&r.rel) };
+                    match tfiles.get(&rel) {
+                        Some(b) if abandon_rel2.as_deref() == Some(rel.as_str()) => {
+                            let h = b.len() / 2;
+                            Resp::Body(vec![Step::Data(b[..h].to_vec()), Step::Pending, Step::Data(b[h..].to_vec())])
+                        }
+                        Some(b) => Resp::whole(b),
+                        None => Resp::not_found(),
+                    }
+                }
+                Base::Unknown => Resp::not_found(),
+            },
+            move |ev| {
+                if let Event::Poll { rel, step: 1, .. } = ev {
+                    let is_it = abandon_rel3.as_deref().is_some_and(|a| a == rel || a == crate::transport::pct_decode(rel));
+                    if is_it && armed2.swap(false, std::sync::atomic::Ordering::SeqCst) {
+                        walk2.notify_one();
+                    }
+                }
+            },
+        );
         o.ev(format!(
-            "cfg consistent={} roots={} rotate={} shipped={} roles={:?} targets={:?} subset={:?} unlisted={} chain={} corrupt={:?}",
+            "cfg consistent={} roots={} rotate={} shipped={} roles={:?} targets={:?} subset={:?} unlisted={} chain={} corrupt={:?} abandon={:?}",
             sc.consistent, sc.roots, sc.rotate_online_keys, sc.shipped, sc.role_names,
-            sc.targets.iter().map(|t| (t.name.as_str(), t.size, t.role)).collect::<Vec<_>>(), sc.subset, sc.ask_unlisted, sc.root_chain, sc.corrupt
+            sc.targets.iter().map(|t| (t.name.as_str(), t.size, t.role)).collect::<Vec<_>>(), sc.subset, sc.ask_unlisted, sc.root_chain, sc.corrupt, sc.abandon
         ));
         for n in &sc.role_names {
             if n.chars().any(|c| !c.is_ascii_alphanumeric()) {
@@ -335,6 +367,51 @@ impl Check for C19 {
         std::fs::write(sbox.join("sibling").join("canary"), b"canary").unwrap();
         let mdir = sbox.join("clone-metadata");
         let tdir = sbox.join("clone-targets");
+        // ---- a first clone that is abandoned half-way through one target
+        if abandon_rel.is_some() {
+            let (m0, t0) = (sbox.join("abandoned-metadata"), sbox.join("abandoned-targets"));
+            let before0 = tree(&sbox);
+            armed.store(true, std::sync::atomic::Ordering::SeqCst);
+            let finished = block_on(async {
+                tokio::select! {
+                    biased;
+                    () = walk_away.notified() => false,
+                    _ = repo.cache(&m0, &t0, None::<&[String]>, sc.root_chain) => true,
+                }
+            });
+            armed.store(false, std::sync::atomic::Ordering::SeqCst);
+            drain_blocking();
+            if finished {
+                o.ev("first clone ran to its end before the abandonment point".to_string());
+            } else {
+                o.fault("clone_abandoned_mid_target");
+                let after0 = tree(&sbox);
+                let inside0 = |k: &str| ["abandoned-metadata", "abandoned-targets"].iter().any(|d| k == *d || k.starts_with(&format!("{d}/")));
+                let ob: BTreeMap<_, _> = before0.iter().filter(|(k, _)| !inside0(k)).collect();
+                let oa: BTreeMap<_, _> = after0.iter().filter(|(k, _)| !inside0(k)).collect();
+                if ob != oa {
+                    o.violate("cache-wrote-outside-its-directories", format!("abandoned clone: sandbox outside its two directories changed: {ob:?} -> {oa:?}"));
+                }
+                // whatever regular file sits in the targets directory is a complete, genuine target
+                let mut partial: Vec<String> = Vec::new();
+                for (k, (kind, _)) in &after0 {
+                    if *kind == 'f' && k.starts_with("abandoned-targets/") {
+                        let b = std::fs::read(sbox.join(k)).unwrap_or_default();
+                        if !contents.values().any(|c| *c == b) {
+                            partial.push(k.clone());
+                        }
+                    }
+                }
+                o.ev(format!("first clone abandoned; incomplete files in its targets directory: {partial:?}"));
+                if partial.is_empty() {
+                    o.probe("abandoned_clone_left_only_complete_targets");
+                } else {
+                    o.violate("abandoned-clone-left-incomplete-target", format!("after cache() was abandoned mid-transfer the targets directory holds files that are not complete targets: {partial:?}"));
+                }
+            }
+            let _ = std::fs::remove_dir_all(&m0);
+            let _ = std::fs::remove_dir_all(&t0);
+        }
         let before = tree(&sbox);
         let mut wanted: Vec<String> = match &sc.subset {
             None => sc.targets.iter().map(|t| t.name.clone()).collect(),
